@@ -491,7 +491,9 @@ class PVLEncoder(object):
         """Returns true if *s* must be quoted according to this
         encoder's grammar, false otherwise.
         """
-        if any(c in self.grammar.whitespace for c in s):
+        # Line wrapping and str.split() take more characters for white
+        # space than the grammar does (e.g. the no-break space).
+        if any(c in self.grammar.whitespace or c.isspace() for c in s):
             return True
 
         if s in self.grammar.reserved_keywords:
